@@ -134,7 +134,7 @@ CONTRACTS[F + "total_variation"] = dict(
     loops={"for#1": dict(invariant=["True"]), "for#2": dict(invariant=["result >= 0", "len(x_pdf) == len(x) and len(y_pdf) == len(x)"])},
 )
 CONTRACTS[F + "kantorovich1d"] = dict(
-    params=dict(x="real[]", y="real[]", p="int"), requires=_DENSE_PRE + ["p == 1 or p == 2"], returns="real",
+    params=dict(x="real[]", y="real[]", p="int"), requires=_DENSE_PRE + ["p >= 1"], returns="real",
     ensures=["unchanged(x) and unchanged(y)"],
     loops={"for#1": dict(invariant=["True"]), "for#2": dict(invariant=["len(x_cdf) == len(x) and len(y_cdf) == len(x)"]),
            "for#3": dict(invariant=["len(x_cdf) == len(x) and len(y_cdf) == len(x)"]), "for#4": dict(invariant=["len(x_cdf) == len(x) and len(y_cdf) == len(x)"]),
